@@ -1,11 +1,13 @@
 //! Engine E — finite matrices over the real server and the real client library
 //! on loopback QUIC, with a raw wire-protocol peer and a scripted fake server.
 
+mod c01;
 mod c03;
 mod c04;
 mod c06;
 mod c07;
 mod c08;
+mod c10;
 mod c11;
 mod c12;
 mod c15;
@@ -54,11 +56,13 @@ fn main() {
     let res = std::panic::catch_unwind(std::panic::AssertUnwindSafe(|| {
         rt.block_on(async move {
             match id.as_str() {
+                "C01" | "C02" => c01::run(&id, &run_tier, replaying).await,
                 "C03" => c03::run(&run_tier, replaying).await,
                 "C04" => c04::run(&run_tier, replaying).await,
                 "C06" => c06::run(&run_tier, replaying).await,
                 "C07" => c07::run(&run_tier, replaying).await,
                 "C08" => c08::run(&run_tier, replaying).await,
+                "C10" => c10::run(&run_tier, replaying).await,
                 "C11" => c11::run(&run_tier, replaying).await,
                 "C12" => c12::run(&run_tier, replaying).await,
                 "C15" => c15::run(&run_tier, replaying).await,
